@@ -1,13 +1,181 @@
-/- Driver for the limiter engine (ops whose name starts with `l`). -/
+/- Driver for the limiter engine (ops whose name starts with `l`).
+
+Limiter ops (a `Limiter<u64>` with explicit times):
+  `lnew N PERIOD_NS`            → `ok tau=<tau> t=<t>` | `err:quota`
+  `la NS KEY TOKENS`            → `ok|large|soon:<wait>` ` tat=<v|-> n=<entries>`
+  `lp NS`                       → `n=<entries> <key>:<tat>,…|-`
+Filter ops (`Filter` + the global permit/ban list; `NOW` is the logical clock in ns):
+  `lfnew EN LIM MAXN MAXB BAN`  → `ok` | `err:quota`   (LIM = `x` | `TOT/NODE/IP`, each `x`|`N:PERIOD`)
+  `lrnew …`                     → same, the filter sits behind `handle_inbound`
+  `lfpi IP` `lfpn NODE` `lfbi NOW IP DUR` `lfbn NOW NODE DUR`   → snapshot
+  `lfi NOW IP` / `lff NOW IP NODE`  → `pass|drop` + snapshot
+  `lfp NOW` → `ok`      `lfz NOW MS` → `ok` (sleep)      `lfs NOW` → snapshot after the ban sweep
+  `lrx IP PORT` / `lry IP PORT` → `ok` (expected response added / removed)
+  `lrin NOW IP PORT KIND NODE`  → `dropped|unrec|inbound` + snapshot  (KIND = g|w|m)
+-/
 import Driver.Common
+import Discv5Model.Model.Filter
 namespace Discv5.Driver
+open Discv5.Limiter Discv5.Filter
 
 structure LimiterSt where
-  dummy : Unit := ()
+  lim : Option (Limiter Nat) := none
+  keys : List Nat := []
+  filt : Option Filter.Filter := none
+  pb : PermitBan := PermitBan.empty
+  ips : List Nat := []
+  nodes : List Nat := []
+  expected : List (Nat × Nat) := []
+
+/-- Sorted insertion without duplicates. -/
+def insSorted (x : Nat) : List Nat → List Nat
+  | [] => [x]
+  | y :: ys => if x < y then x :: y :: ys else if x = y then y :: ys else y :: insSorted x ys
+
+def optNat (s : String) : Option Nat := if s == "x" then none else s.toNat?
+
+def showVerdict : Verdict → String
+  | .ok => "ok"
+  | .tooLarge => "large"
+  | .tooSoon w => s!"soon:{w}"
+
+def limEntries (l : Limiter Nat) (keys : List Nat) : List (Nat × Nat) :=
+  keys.filterMap (fun k => (l.tat k).map (fun v => (k, v)))
+
+/-- `N:PERIOD` | `x`. -/
+def parseQuota (s : String) : Option (Option (Nat × Nat)) :=
+  if s == "x" then some none
+  else match fields s with
+    | [n, p] => match n.toNat?, p.toNat? with
+      | some n, some p => some (some (n, p))
+      | _, _ => none
+    | _ => none
+
+/-- `x` (no rate limiter) | `TOT/NODE/IP`.  Outer `none` = malformed, `some none` = build error. -/
+def parseLimiter (s : String) : Option (Option (Option RateLimiter)) :=
+  if s == "x" then some (some none)
+  else match s.splitOn "/" with
+    | [a, b, c] => match parseQuota a, parseQuota b, parseQuota c with
+      | some qa, some qb, some qc => some ((RateLimiter.build qa qb qc).map some)
+      | _, _, _ => none
+    | _ => none
+
+def showBan (m : Nat → Option (Option Nat)) (keys : List Nat) : String :=
+  let es := keys.filterMap (fun k => (m k).map (fun e => s!"{k}:{if e.isSome then "t" else "p"}"))
+  if es.isEmpty then "-" else ",".intercalate es
+
+def showSet (m : Nat → Bool) (keys : List Nat) : String :=
+  let es := (keys.filter m).map toString
+  if es.isEmpty then "-" else ",".intercalate es
+
+def snapshot (st : LimiterSt) : String :=
+  s!"pi={showSet st.pb.permitIps st.ips} bi={showBan st.pb.banIps st.ips} pn={showSet st.pb.permitNodes st.nodes} bn={showBan st.pb.banNodes st.nodes}"
+
+def newFilter (st : LimiterSt) (en lim maxn maxb ban : String) : LimiterSt × String :=
+  match parseLimiter lim with
+  | none => (st, "bad-op")
+  | some none => ({ st with filt := none, pb := PermitBan.empty }, "err:quota")
+  | some (some rl) =>
+    ({ st with filt := some (Filter.new (en == "1") rl (optNat maxn) (optNat maxb) (optNat ban)),
+               pb := PermitBan.empty, expected := [] }, "ok")
 
 /-- One op of the limiter engine: full token list (op name first) → new state and reply line. -/
 def limiterStep (st : LimiterSt) (toks : List String) : LimiterSt × String :=
   match toks with
+  | ["lnew", n, period] =>
+    match (fromQuota (nat! n) (nat! period) : Option (Limiter Nat)) with
+    | none => ({ st with lim := none, keys := [] }, "err:quota")
+    | some l => ({ st with lim := some l, keys := [] }, s!"ok tau={l.tau} t={l.t}")
+  | ["la", ns, key, tokens] =>
+    match st.lim with
+    | none => (st, "bad-op")
+    | some l =>
+      let key := nat! key
+      let (l1, v) := l.allows (nat! ns) key (nat! tokens)
+      let keys := insSorted key st.keys
+      let tat := match l1.tat key with | some x => toString x | none => "-"
+      ({ st with lim := some l1, keys := keys },
+       s!"{showVerdict v} tat={tat} n={(limEntries l1 keys).length}")
+  | ["lp", ns] =>
+    match st.lim with
+    | none => (st, "bad-op")
+    | some l =>
+      let l1 := l.prune (nat! ns)
+      let es := limEntries l1 st.keys
+      let body := if es.isEmpty then "-" else ",".intercalate (es.map fun e => s!"{e.1}:{e.2}")
+      ({ st with lim := some l1 }, s!"n={es.length} {body}")
+  | ["lfnew", en, lim, maxn, maxb, ban] => newFilter st en lim maxn maxb ban
+  | ["lrnew", en, lim, maxn, maxb, ban] => newFilter st en lim maxn maxb ban
+  | ["lfpi", ip] =>
+    let ip := nat! ip
+    let st := { st with ips := insSorted ip st.ips,
+                        pb := { st.pb with permitIps := fun k => k == ip || st.pb.permitIps k } }
+    (st, snapshot st)
+  | ["lfpn", node] =>
+    let node := nat! node
+    let st := { st with nodes := insSorted node st.nodes,
+                        pb := { st.pb with permitNodes := fun k => k == node || st.pb.permitNodes k } }
+    (st, snapshot st)
+  | ["lfbi", now, ip, dur] =>
+    let ip := nat! ip
+    let st := { st with ips := insSorted ip st.ips,
+                        pb := { st.pb with banIps := banInsert st.pb.banIps ip ((optNat dur).map (nat! now + ·)) } }
+    (st, snapshot st)
+  | ["lfbn", now, node, dur] =>
+    let node := nat! node
+    let st := { st with nodes := insSorted node st.nodes,
+                        pb := { st.pb with banNodes := banInsert st.pb.banNodes node ((optNat dur).map (nat! now + ·)) } }
+    (st, snapshot st)
+  | ["lfi", now, ip] =>
+    match st.filt with
+    | none => (st, "bad-op")
+    | some f =>
+      let ip := nat! ip
+      let (f1, pb1, ok) := f.initialPass st.pb (nat! now) ip
+      let st := { st with filt := some f1, pb := pb1, ips := insSorted ip st.ips }
+      (st, s!"{if ok then "pass" else "drop"} {snapshot st}")
+  | ["lff", now, ip, node] =>
+    match st.filt with
+    | none => (st, "bad-op")
+    | some f =>
+      let ip := nat! ip
+      let node := nat! node
+      let (f1, pb1, ok) := f.finalPass st.pb (nat! now) ip node
+      let st := { st with filt := some f1, pb := pb1, ips := insSorted ip st.ips,
+                          nodes := insSorted node st.nodes }
+      (st, s!"{if ok then "pass" else "drop"} {snapshot st}")
+  | ["lfp", now] =>
+    match st.filt with
+    | none => (st, "bad-op")
+    | some f => ({ st with filt := some (f.pruneLimiter (nat! now)) }, "ok")
+  | ["lfz", _now, _ms] => (st, "ok")
+  | ["lfs", now] =>
+    let st := { st with pb := st.pb.sweep (nat! now) }
+    (st, snapshot st)
+  | ["lrx", ip, port] =>
+    ({ st with expected := (nat! ip, nat! port) :: st.expected.filter (· != (nat! ip, nat! port)) }, "ok")
+  | ["lry", ip, port] =>
+    ({ st with expected := st.expected.filter (· != (nat! ip, nat! port)) }, "ok")
+  | ["lrin", now, ip, port, kind, node] =>
+    match st.filt with
+    | none => (st, "bad-op")
+    | some f =>
+      let ip := nat! ip
+      let node := nat! node
+      let d : Option Decoded := match kind with
+        | "g" => some .garbage
+        | "w" => some .noSrc
+        | "m" => some (.src node)
+        | _ => none
+      match d with
+      | none => (st, "bad-op")
+      | some d =>
+        let permitted := st.expected.contains (ip, nat! port)
+        let (f1, pb1, o) := handleInbound f st.pb (nat! now) permitted ip d
+        let st := { st with filt := some f1, pb := pb1, ips := insSorted ip st.ips,
+                            nodes := if kind == "m" then insSorted node st.nodes else st.nodes }
+        let o := match o with | .dropped => "dropped" | .unrecognized => "unrec" | .inbound => "inbound"
+        (st, s!"{o} {snapshot st}")
   | _ => (st, "bad-op")
 
 end Discv5.Driver
